@@ -29,8 +29,8 @@ Theorem C08_noclobber_frame : forall cfg keep r t acts ok (d : dmap),
 Proof. exact walk_noclobber_frame. Qed.
 
 (* the worker-side check for special files *)
-Theorem C08_special_worker_refuses : forall umask src,
-  special_worker true true umask src = None.
+Theorem C08_special_worker_refuses : forall same umask src,
+  special_worker true true same umask src = None.
 Proof. reflexivity. Qed.
 
 (* ---- tie to the current source (translator): the no-clobber check precedes the dispatch, ends the walk, and
